@@ -117,6 +117,22 @@ def selector_rules(run, model, rule, which=("condition", "capture", "error")):
                     rt = flow.term(r.ast, r)
                     if not (rt[0] == "comp" and rt[2][1] == comp.lineno and rt[2][2] == comp.col_offset):
                         bad = "the function returns %s, not the selected sub-mapping" % show(strip_sites(rt))
+        # ... and it is handed on as it was selected: no entry is replaced, added or removed afterwards
+        if bad is None:
+            is_sel = lambda t_: t_[0] == "comp" and t_[2][1] == comp.lineno and t_[2][2] == comp.col_offset
+            for x in flow.cfg.nodes:
+                if x.kind == "stmt" and isinstance(x.ast, (ast.Assign, ast.AugAssign)):
+                    tgs = x.ast.targets if isinstance(x.ast, ast.Assign) else [x.ast.target]
+                    for tg_ in tgs:
+                        if isinstance(tg_, ast.Subscript) and is_sel(flow.term(tg_.value, x)):
+                            bad = "an entry of the selected sub-mapping is replaced afterwards (`%s`): the callable does not receive the very object the body receives" % first_line(x.stmt)
+                if x.kind == "stmt" and isinstance(x.ast, ast.Delete):
+                    for tg_ in x.ast.targets:
+                        if isinstance(tg_, ast.Subscript) and is_sel(flow.term(tg_.value, x)):
+                            bad = "an entry of the selected sub-mapping is removed afterwards (`%s`)" % first_line(x.stmt)
+                for call_, c_, a_ in calls_in(x):
+                    if isinstance(call_.func, ast.Attribute) and call_.func.attr in ("update", "pop", "popitem", "setdefault", "clear", "__setitem__", "__delitem__") and is_sel(flow.term(call_.func.value, x)):
+                        bad = "the selected sub-mapping is changed afterwards (`%s`)" % first_line(x.stmt)
         run.check(bad is None, rule, fi.qual + ":selection", "returns {k: v for k, v in mapping.items() if k in %s.%s} (same keys, same value objects)" % (obj_p, set_attrs[0]), bad or "", fi.loc(n), None, first_line(n.stmt))
 
 
